@@ -72,6 +72,20 @@ fn handle(line: &str, oracle: bool) -> String {
                 _ => bad(),
             }
         }
+        (["PARSESEQ", off, fs, h], o) => {
+            let fl: Option<Vec<(char, usize)>> = fs.split(',').map(|f| { let mut it = f.split(':'); Some((it.next()?.chars().next()?, it.next()?.parse().ok()?)) }).collect();
+            match (off.parse::<usize>(), fl, unhex(h)) {
+                (Ok(off), Some(fl), Some(d)) => if o { l2::oracle_parseseq(off, &fl, &d) } else { l2::op_parseseq(off, &fl, &d) },
+                _ => bad(),
+            }
+        }
+        (["PUTSEQ", off, h, fs], o) => {
+            let fl: Option<Vec<(char, usize, u64)>> = fs.split(',').map(|f| { let mut it = f.split(':'); Some((it.next()?.chars().next()?, it.next()?.parse().ok()?, it.next()?.parse().ok()?)) }).collect();
+            match (off.parse::<usize>(), unhex(h), fl) {
+                (Ok(off), Some(d), Some(fl)) => if o { l2::oracle_putseq(off, &d, &fl) } else { l2::op_putseq(off, &d, &fl) },
+                _ => bad(),
+            }
+        }
         (["SKIPPARSE", k, w, off, skip, len, h], o) => {
             match (w.parse::<usize>(), off.parse::<usize>(), skip.parse::<usize>(), len.parse::<usize>(), unhex(h)) {
                 (Ok(w), Ok(off), Ok(skip), Ok(len), Some(d)) => l2::with_skip(skip, || {
